@@ -204,9 +204,10 @@ struct AnalyserInternalEquation
     bool hasNonConstantVariables();
 
     bool variableOnLhsRhs(const AnalyserInternalVariablePtr &variable,
-                          const AnalyserEquationAstPtr &astChild);
-    bool variableOnRhs(const AnalyserInternalVariablePtr &variable);
-    bool variableOnLhsOrRhs(const AnalyserInternalVariablePtr &variable);
+                          const AnalyserEquationAstPtr &astChild,
+                          bool rate);
+    bool variableOnRhs(const AnalyserInternalVariablePtr &variable, bool rate);
+    bool variableOnLhsOrRhs(const AnalyserInternalVariablePtr &variable, bool rate);
 
     bool check(const AnalyserModelPtr &model, size_t &stateIndex, size_t &variableIndex, bool checkNlaSystems);
 };
@@ -297,27 +298,31 @@ bool AnalyserInternalEquation::hasNonConstantVariables()
 }
 
 bool AnalyserInternalEquation::variableOnLhsRhs(const AnalyserInternalVariablePtr &variable,
-                                                const AnalyserEquationAstPtr &astChild)
+                                                const AnalyserEquationAstPtr &astChild,
+                                                bool rate)
 {
+    // Note: when what an equation computes is the rate of a state (dx/dt) then only a derivative counts, and when it
+    //       is a variable then only the variable itself counts, e.g. in dx/dt = x the unknown is on the LHS only.
+
     switch (astChild->type()) {
     case AnalyserEquationAst::Type::CI:
-        return astChild->variable()->name() == variable->mVariable->name();
+        return !rate && (astChild->variable()->name() == variable->mVariable->name());
     case AnalyserEquationAst::Type::DIFF:
-        return astChild->rightChild()->variable()->name() == variable->mVariable->name();
+        return rate && (astChild->rightChild()->variable()->name() == variable->mVariable->name());
     default:
         return false;
     }
 }
 
-bool AnalyserInternalEquation::variableOnRhs(const AnalyserInternalVariablePtr &variable)
+bool AnalyserInternalEquation::variableOnRhs(const AnalyserInternalVariablePtr &variable, bool rate)
 {
-    return variableOnLhsRhs(variable, mAst->rightChild());
+    return variableOnLhsRhs(variable, mAst->rightChild(), rate);
 }
 
-bool AnalyserInternalEquation::variableOnLhsOrRhs(const AnalyserInternalVariablePtr &variable)
+bool AnalyserInternalEquation::variableOnLhsOrRhs(const AnalyserInternalVariablePtr &variable, bool rate)
 {
-    return variableOnLhsRhs(variable, mAst->leftChild())
-           || variableOnRhs(variable);
+    return variableOnLhsRhs(variable, mAst->leftChild(), rate)
+           || variableOnRhs(variable, rate);
 }
 
 bool AnalyserInternalEquation::check(const AnalyserModelPtr &model,
@@ -402,8 +407,10 @@ bool AnalyserInternalEquation::check(const AnalyserModelPtr &model,
                                    mVariables.front() :
                                    nullptr;
 
+    auto unknownIsRate = mVariables.empty();
+
     if (((unknownVariableLeft != nullptr)
-         && (checkNlaSystems || variableOnLhsOrRhs(unknownVariableLeft)))
+         && (checkNlaSystems || variableOnLhsOrRhs(unknownVariableLeft, unknownIsRate)))
         || !initialisedVariables.empty()) {
         auto variables = mVariables.empty() ?
                              mOdeVariables.empty() ?
@@ -453,7 +460,7 @@ bool AnalyserInternalEquation::check(const AnalyserModelPtr &model,
         //       be solved as an NLA equation.
 
         if ((unknownVariableLeft == nullptr)
-            || !variableOnLhsOrRhs(unknownVariableLeft)) {
+            || !variableOnLhsOrRhs(unknownVariableLeft, unknownIsRate)) {
             mType = Type::NLA;
         } else {
             switch (unknownVariableLeft->mType) {
@@ -3215,7 +3222,7 @@ void Analyser::AnalyserImpl::analyseModel(const ModelPtr &model)
             // Swap the LHS and RHS of the equation if its unknown variable is
             // on its RHS.
 
-            if (internalEquation->variableOnRhs(internalEquation->mUnknownVariables.front())) {
+            if (internalEquation->variableOnRhs(internalEquation->mUnknownVariables.front(), internalEquation->mType == AnalyserInternalEquation::Type::ODE)) {
                 internalEquation->mAst->swapLeftAndRightChildren();
             }
 
